@@ -1,6 +1,7 @@
 package media
 
 import (
+	"github.com/cnotch/ipchub/provider/route"
 	"sync/atomic"
 	"time"
 
@@ -115,8 +116,8 @@ func VerifRegistryHistory() {
 // protocol and no recent HLS access; it never panics.
 type verifHls struct{ last time.Time }
 
-func (h *verifHls) M3u8(token string) ([]byte, error)           { return nil, nil }
-func (h *verifHls) LastAccessTime() time.Time                     { return h.last }
+func (h *verifHls) M3u8(token string) ([]byte, error) { return nil, nil }
+func (h *verifHls) LastAccessTime() time.Time         { return h.last }
 
 func VerifIdleClose() {
 	s := verifStream("/a")
@@ -274,4 +275,54 @@ func VerifIdleCloseHls() {
 		symapi.Assert(s.status == StreamOK && Get("/live/h") == s, "stream-with-recent-hls-access-not-closed")
 		symapi.Reach("recent")
 	}
+}
+
+// verifPullFactory is an on-demand pull source: Create registers the pulled stream itself (as
+// the real factory's play loop does) and then, depending on the scenario, the camera drops
+// at once (the play loop unregisters and closes the stream) or a publisher takes the path.
+type verifPullFactory struct {
+	created   []*Stream
+	scenario  int
+	publisher *Stream
+}
+
+func (f *verifPullFactory) Can(remoteURL string) bool { return true }
+func (f *verifPullFactory) Create(localPath, remoteURL string) (*Stream, error) {
+	s := verifStream(localPath)
+	f.created = append(f.created, s)
+	Regist(s)
+	switch f.scenario {
+	case 1: // the camera disconnects right after the handshake
+		Unregist(s)
+	case 2: // a publisher registers on the path before Create returns
+		f.publisher = verifStream(localPath)
+		Regist(f.publisher)
+	}
+	return s, nil
+}
+
+// VerifGetOrCreate (C05 / C20): a lookup that falls through to the route table and the pull
+// factory leaves the registry consistent whatever happens to the pulled stream meanwhile: a
+// closed stream is never resolvable, a publisher that took the path stays registered, and a
+// second request finds the live pulled stream instead of pulling again.
+func VerifGetOrCreate() {
+	f := &verifPullFactory{scenario: symapi.Choose("scenario", 3)}
+	psFactories = []PullStreamFactory{f}
+	route.Save(&route.Route{Pattern: "/pull/a", URL: "fake://cam/a", KeepAlive: symapi.Bool("keepAlive")})
+	s := GetOrCreate("/pull/a")
+	symapi.Assert(len(f.created) == 1, "one-pull-for-the-first-request")
+	cur := Get("/pull/a")
+	symapi.Assert(cur == nil || !verifClosed(cur), "closed-stream-never-resolvable")
+	switch f.scenario {
+	case 0:
+		symapi.Assert(s == f.created[0] && cur == s, "pulled-stream-registered-under-the-requested-path")
+		symapi.Assert(GetOrCreate("/pull/a") == s && len(f.created) == 1, "second-request-reuses-the-live-stream")
+	case 1:
+		symapi.Assert(cur == nil, "nothing-stays-registered-after-the-camera-dropped")
+		sc, _ := Count()
+		symapi.Assert(sc == 0, "stream-count-matches")
+	case 2:
+		symapi.Assert(cur == f.publisher && !verifClosed(f.publisher), "publisher-that-took-the-path-stays-registered-and-open")
+	}
+	symapi.Reach("end")
 }
